@@ -255,6 +255,12 @@ class DirectedAdaptor:
                 o[f"get_weight({e!r})"] = E[k][0]
                 o[f"get_edge_metadata({e!r})"] = E[k][1]
         for f in FILTERS:
+            degs = {n: sum(1 for k in E if n in k[0] and sel(klen(k), f)) + sum(1 for k in E if n in k[1] and sel(klen(k), f)) for n in V}
+            o[f"degree_sequence({fname(f)})"] = {repr(n): d for n, d in degs.items()}
+            dd = {}
+            for d in degs.values():
+                dd[str(d)] = dd.get(str(d), 0) + 1
+            o[f"degree_distribution({fname(f)})"] = dd
             for n in V:
                 src = [k for k in E if n in k[0] and sel(klen(k), f)]
                 tgt = [k for k in E if n in k[1] and sel(klen(k), f)]
@@ -313,6 +319,8 @@ class DirectedAdaptor:
                 q(f"get_weight({e!r})", lambda e=e: h.get_weight(e))
                 q(f"get_edge_metadata({e!r})", lambda e=e: h.get_edge_metadata(e))
         for f in FILTERS:
+            q(f"degree_sequence({fname(f)})", lambda f=f: {repr(n): d for n, d in h.degree_sequence(**f).items()})
+            q(f"degree_distribution({fname(f)})", lambda f=f: {str(k): v for k, v in h.degree_distribution(**f).items()})
             for n in nodes:
                 q(f"get_source_edges({n!r},{fname(f)})", lambda n=n, f=f: msort(S(e) for e in h.get_source_edges(n, **f)))
                 q(f"get_target_edges({n!r},{fname(f)})", lambda n=n, f=f: msort(S(e) for e in h.get_target_edges(n, **f)))
